@@ -572,7 +572,7 @@ func layout(in []Tok, eof Tok, r *rand.Rand, lay Layout) *Rendered {
 					out.SmartCuts++
 				case hazard:
 					writeSemi = true
-				case !incdec && t.Kind != TEOF && t.Text != "else" && chance(lay.Fuse):
+				case !incdec && t.Kind != TEOF && t.Text != "else" && prev != nil && !(prev.Kind == TKeyword && prev.Text == "return") && chance(lay.Fuse):
 					t.Fused = true
 					out.Fuses++
 				default:
